@@ -392,7 +392,7 @@ func (g *G) Value(typ reflect.Type) reflect.Value {
 		g.depth--
 		return p
 	case reflect.Slice:
-		if typ.Elem().Kind() == reflect.Uint8 {
+		if typ == BytesType {
 			v.SetBytes(g.Bytes())
 			return v
 		}
@@ -472,7 +472,7 @@ func (g *G) dynKey() reflect.Value {
 // map[interface{}]interface{}, []int32, []string.
 func (g *G) Dynamic() reflect.Value {
 	v := g.dynamic1()
-	if v.IsValid() && (v.Kind() == reflect.Map || v.Kind() == reflect.Slice && v.Type().Elem().Kind() != reflect.Uint8) && v.Len() > 0 {
+	if v.IsValid() && (v.Kind() == reflect.Map || v.Kind() == reflect.Slice && v.Type() != BytesType) && v.Len() > 0 {
 		g.dynConts = append(g.dynConts, v)
 	}
 	return v
